@@ -226,9 +226,14 @@ func TestC06CrashPoints(t *testing.T) {
 		}
 		for k := 0; k <= len(units); k++ {
 			tryPoint(k, -1)
-			if partialBulks && k < len(units) && units[k].Kind == "bulk" && len(units[k].Ops) > 1 {
-				for p := 1; p < len(units[k].Ops); p++ {
-					tryPoint(k, p)
+			if k < len(units) && units[k].Kind == "bulk" && len(units[k].Ops) > 1 {
+				if partialBulks {
+					for p := 1; p < len(units[k].Ops); p++ {
+						tryPoint(k, p)
+					}
+				} else {
+					// quick tier: one drawn partial flush per bulk
+					tryPoint(k, rapid.IntRange(1, len(units[k].Ops)-1).Draw(t, "partialFlush"))
 				}
 			}
 		}
